@@ -2,6 +2,7 @@ package main
 
 import (
 	"fmt"
+	"regexp"
 	"go/constant"
 	"go/token"
 	"go/types"
@@ -37,7 +38,7 @@ func (fx *FuncCtx) run() {
 	for pass := 0; pass < 8; pass++ {
 		fx.resetPass()
 		changed := fx.pass()
-		if !changed {
+		if !changed && sameStoreLog(fx.storeLog, fx.prevStoreLog) {
 			return
 		}
 		if fx.rejected != "" {
@@ -48,6 +49,10 @@ func (fx *FuncCtx) run() {
 }
 
 func (fx *FuncCtx) resetPass() {
+	fx.prevStoreLog, fx.storeLog = fx.storeLog, map[*ssa.BasicBlock]map[string]map[string]bool{}
+	fx.prevSymLine, fx.symLine = fx.symLine, map[string]int{}
+	fx.prevHeadLine, fx.headLine = fx.headLine, map[*ssa.BasicBlock]int{}
+	fx.sliceArr = map[string]string{}
 	fx.lines = nil
 	fx.obls = nil
 	fx.n = 0
@@ -237,6 +242,9 @@ func (fx *FuncCtx) pass() bool {
 			if !li.blocks[b] {
 				continue
 			}
+			if b == li.header {
+				continue // leaving from the header: no iteration was started
+			}
 			for _, s := range b.Succs {
 				if !li.blocks[s] {
 					fx.exitLoop(li, st, fx.edgeCond(st, b, s))
@@ -330,6 +338,7 @@ func (fx *FuncCtx) enterLoop(li *loopInfo, pre *State) *State {
 		comps = append(comps, c)
 	}
 	sort.Strings(comps)
+	fx.headLine[li.header] = len(fx.lines)
 	for _, c := range comps {
 		if c == "$alloc" {
 			old := st.Alloc
@@ -337,7 +346,17 @@ func (fx *FuncCtx) enterLoop(li *loopInfo, pre *State) *State {
 			fx.emit(fmt.Sprintf("(assert (>= %s %s))", st.Alloc, old))
 			continue
 		}
+		before, had := st.Heap[c]
+		if !had {
+			if _, known := fx.compSort[c]; known {
+				before = fx.baseLookup(st.Base, c)
+				had = true
+			}
+		}
 		fx.havocComp(st, c)
+		if had && !m.all {
+			fx.loopFrame(li, rh, c, before, st.Heap[c], pre.Alloc)
+		}
 	}
 	var cells []*ssa.Alloc
 	for a := range m.cells {
@@ -453,8 +472,8 @@ func (fx *FuncCtx) wf(st *State, term string, t types.Type, depth int) string {
 	}
 	switch tt := t.Underlying().(type) {
 	case *types.Slice:
-		return fmt.Sprintf("(and (<= 0 (sl_off %s)) (<= 0 (sl_len %s)) (<= (sl_len %s) (sl_cap %s)) (<= 0 (sl_arr %s)) (<= (sl_arr %s) %s) (=> (= (sl_arr %s) 0) (= (sl_cap %s) 0)))",
-			term, term, term, term, term, term, st.Alloc, term, term)
+		return fmt.Sprintf("(and (<= 0 (sl_off %s)) (<= 0 (sl_len %s)) (<= (sl_len %s) (sl_cap %s)) (<= (+ (sl_off %s) (sl_cap %s)) 281474976710655) (<= 0 (sl_arr %s)) (<= (sl_arr %s) %s) (=> (= (sl_arr %s) 0) (= (sl_cap %s) 0)))",
+			term, term, term, term, term, term, term, term, st.Alloc, term, term)
 	case *types.Pointer, *types.Map:
 		return fmt.Sprintf("(and (<= 0 %s) (<= %s %s))", term, term, st.Alloc)
 	case *types.Interface:
@@ -782,4 +801,82 @@ func (fx *FuncCtx) nilCheck(st *State, p *Val, what string, pos token.Pos) {
 	if ob != nil {
 		ob.Expr = "nil dereference of " + what
 	}
+}
+
+func sameStoreLog(a, b map[*ssa.BasicBlock]map[string]map[string]bool) bool {
+	if len(a) != len(b) {
+		return false
+	}
+	for h, ma := range a {
+		mb := b[h]
+		if len(ma) != len(mb) {
+			return false
+		}
+		for c, sa := range ma {
+			sb := mb[c]
+			if len(sa) != len(sb) {
+				return false
+			}
+			for i := range sa {
+				if !sb[i] {
+					return false
+				}
+			}
+		}
+	}
+	return true
+}
+
+var symRe = regexp.MustCompile(`[A-Za-z_][A-Za-z0-9_.]*\$[0-9]+`)
+
+// loopFrame assumes, at a loop header, that a havocked heap component only
+// differs from its pre-loop value at the indices the loop body stores to
+// (when those indices are loop-invariant terms or objects allocated inside the loop).
+func (fx *FuncCtx) loopFrame(li *loopInfo, rh, comp, before, after, allocPre string) {
+	idxs := fx.prevStoreLog[li.header][comp]
+	if idxs == nil {
+		return
+	}
+	headLine, ok := fx.prevHeadLine[li.header]
+	if !ok {
+		return
+	}
+	ks, _ := arraySorts(fx.compSort[comp])
+	if ks == "" {
+		return
+	}
+	var excl []string
+	keys := make([]string, 0, len(idxs))
+	for i := range idxs {
+		keys = append(keys, i)
+	}
+	sort.Strings(keys)
+	for _, idx := range keys {
+		if idx == "*" {
+			return
+		}
+		inv := true
+		freshRef := false
+		for _, sym := range symRe.FindAllString(idx, -1) {
+			if ln, ok := fx.prevSymLine[sym]; ok && ln >= headLine {
+				inv = false
+				if idx == sym && strings.HasPrefix(sym, "ref$") && ks == "Int" {
+					freshRef = true
+				}
+			}
+		}
+		if freshRef {
+			continue
+		}
+		if !inv {
+			return
+		}
+		excl = append(excl, "(not (= x!lf "+idx+"))")
+	}
+	conds := excl
+	if ks == "Int" {
+		conds = append([]string{"(<= x!lf " + allocPre + ")"}, excl...)
+	}
+	fx.emit(fmt.Sprintf("(assert %s)", imp(rh, fmt.Sprintf("(forall ((x!lf %s)) (! %s :pattern ((select %s x!lf))))", ks,
+		imp(and(conds...), "(= (select "+after+" x!lf) (select "+before+" x!lf))"), after))))
 }
